@@ -187,7 +187,8 @@ def run (j : Json) : Except String Json := do
   let liftOK := !(liftHyps && inDom && !elided) || modelHolds
   let clauses := clausesC05 evsR errText rootError impl
   let clauseNames := ["begin with the root target", "list the failing path in order", "show the failing spec's target",
-    "show every failed branch", "stop at the failing spec (it lists a spec that returned normally below it)"]
+    "show every failed branch", "stop at the failing spec (it lists a spec that returned normally below it)",
+    "follow the branch that really raised (a spec that completed normally is shown with branches: a stale, recovered alternative leaks in)"]
   let failedClauses := (clauses.zip clauseNames).filterMap (fun (ok, n) => if ok then none else some n)
   return Json.mkObj [("agree", model == impl && inDom && msgAgree && reprAgree && liftOK), ("lift_hyps", liftHyps), ("lift_ok", liftOK), ("holds", holds), ("in_domain", inDom), ("domain_why", domainWhy), ("model_holds", modelHolds), ("clauses", toJson clauses),
     ("message_agrees", msgAgree), ("repr_agrees", reprAgree), ("values", nValues),
